@@ -115,52 +115,65 @@ def gen_pair(r, relation, ext=False):
     return p.ops, G
 
 
-def lattice_pairs(r):
-    """systematic sweep of the settings lattice on one small structure: nested N shared by a root F (configured)
-    and a root G (no Meta); F is exercised first, then G and N alone.  With recursive=False nothing of F's Meta
-    may reach N, whatever other flags are set; with the default recursive=True the known cascade leak (F10) applies."""
+def lattice_pairs(r, ext=True):
+    """systematic sweep of the settings lattice on one small structure with TWO nesting levels: N (holding M) is
+    shared by a root F (configured, through an inner Meta and through LoadMeta(..).bind_to) and a root G (no Meta);
+    F is exercised first, then G, N alone and M alone.  With recursive=False nothing of F's Meta may reach N or M,
+    whatever other flags are set; with the default recursive=True only the known cascade leak (F10) applies.
+    ext=False restricts the sweep to the features of the Coq model (the model then says exactly what leaks today)."""
     def cls(cid, fields, wiz, mod, inner=None):
         return {'op': 'define', 'cid': cid, 'qn': cid, 'mod': mod, 'wiz': wiz, 'base': None, 'mro': [], 'base_qn': None,
                 'inner': inner, 'fields': fields, 'own_fields': fields, 'tag': 'define'}
     none = {'ltr': None, 'dtr': None, 'raise': None, 'skipdef': None, 'rec': None}
-    dump_opts = [{}, {'dtr': 'SNAKE'}, {'dtr': 'PASCAL'}, {'marshal': 'TIMESTAMP'}, {'skipdef': True},
-                 {'skip_if': {'obj': 11, 'cond': base.SHARED_CONDS[11]}}]
-    load_opts = [{}, {'ltr': 'NONE'}, {'raise': True}, {'tag_key': 'kind'}, {'jk2f': {'obj': 1, 'map': base.SHARED_MAPS[1]}}]
+    if ext:
+        dump_opts = [{}, {'dtr': 'SNAKE'}, {'dtr': 'PASCAL'}, {'marshal': 'TIMESTAMP'}, {'skipdef': True},
+                     {'skip_if': {'obj': 11, 'cond': base.SHARED_CONDS[11]}}]
+        load_opts = [{}, {'ltr': 'NONE'}, {'raise': True}, {'tag_key': 'kind'}, {'jk2f': {'obj': 1, 'map': base.SHARED_MAPS[1]}}]
+        autos = (None, True)
+    else:
+        dump_opts = [{}, {'dtr': 'SNAKE'}, {'dtr': 'PASCAL'}, {'skipdef': True}, {'dtr': 'LISP', 'skipdef': True}]
+        load_opts = [{}, {'ltr': 'NONE'}, {'raise': True}, {'ltr': 'CAMEL', 'raise': True}]
+        autos = (None,)
     out = []
     for rec in (None, False):
-        for auto in (None, True):
+        for auto in autos:
             for dopt in dump_opts:
                 for lopt in load_opts:
                     if not dopt and not lopt and auto is None:
                         continue
-                    meta = dict(none, rec=rec, **dopt, **lopt)
-                    if auto:
-                        meta['auto_tags'] = True
-                    wiz = r.random() < 0.5
-                    mf = [['y', 'int', 1], ['x', 'int', 0]]
-                    m_inst = {'c': 4, 'f': [['y', {'i': r.choice([1, 5])}], ['x', {'i': 0}]]}
-                    nf = [['my_val', 'int', None], ['seen_at', 'datetime', None], ['m_item', {'nested': 4}, None], ['x', 'int', 0]]
-                    n_inst = {'c': 1, 'f': [['my_val', {'i': r.randrange(1, 9)}], ['seen_at', {'dt': '2020-01-01T00:00:00+00:00'}],
-                                            ['m_item', m_inst], ['x', {'i': 0}]]}
-                    n_doc = {'my_val': 2, 'seen_at': '2020-01-01T00:00:00+00:00', 'm_item': {'y': 3, 'ID': 8, 'zz': 1},
-                             'extra': 'x', 'ID': 9, 'Alt-Key': 5}
-                    h = [cls(4, mf, False, 'b'), cls(1, nf, False, 'b'), cls(2, [['n_item', {'nested': 1}, None]], wiz, 'a'),
-                         cls(3, [['n_item', {'nested': 1}, None]], False, 'b')]
-                    if wiz and r.random() < 0.5:
-                        h[2]['inner'] = meta
-                    else:
-                        h.append({'op': 'bind', 'cid': 2, 'meta': meta, 'tag': 'bind'})
-                    f_ops = [{'op': 'dump', 'attr': False, 'inst': {'c': 2, 'f': [['n_item', n_inst]]}, 'tag': 'dump'},
-                             {'op': 'load', 'cid': 2, 'attr': False, 'doc': {'n_item': dict(n_doc, extra=None) if lopt.get('raise') is None else {'my_val': 2, 'seen_at': 1577836800, 'm_item': {'y': 2}}}, 'tag': 'load'}]
-                    r.shuffle(f_ops)
-                    g_ops = [{'op': 'dump', 'attr': False, 'inst': {'c': 3, 'f': [['n_item', n_inst]]}, 'tag': 'dump'},
-                             {'op': 'load', 'cid': 3, 'attr': False, 'doc': {'n_item': n_doc}, 'tag': 'load'},
-                             {'op': 'dump', 'attr': False, 'inst': n_inst, 'tag': 'dump'},
-                             {'op': 'load', 'cid': 1, 'attr': False, 'doc': n_doc, 'tag': 'load'},
-                             {'op': 'dump', 'attr': False, 'inst': m_inst, 'tag': 'dump'},
-                             {'op': 'load', 'cid': 4, 'attr': False, 'doc': {'y': 3, 'ID': 8, 'zz': 1}, 'tag': 'load'}]
-                    r.shuffle(g_ops)
-                    out.append((h + f_ops + g_ops, {1, 3, 4}))
+                    # both configuration styles where the Meta carries nothing that is allowed to cascade
+                    styles = ('bind', 'inner') if (not dopt or not ext) else (r.choice(['bind', 'inner']),)
+                    for style in styles:
+                        meta = dict(none, rec=rec, **dopt, **lopt)
+                        if auto:
+                            meta['auto_tags'] = True
+                        mf = [['y', 'int', 1], ['x', 'int', 0]]
+                        m_inst = {'c': 4, 'f': [['y', {'i': r.choice([1, 5])}], ['x', {'i': 0}]]}
+                        sec = ['seen_at', 'datetime', None] if ext else ['s_val', 'str', None]
+                        secv = {'dt': '2020-01-01T00:00:00+00:00'} if ext else {'s': 'q'}
+                        secd = '2020-01-01T00:00:00+00:00' if ext else 'q'
+                        nf = [['my_val', 'int', None], sec, ['m_item', {'nested': 4}, None], ['x', 'int', 0]]
+                        n_inst = {'c': 1, 'f': [['my_val', {'i': r.randrange(1, 9)}], [sec[0], secv], ['m_item', m_inst], ['x', {'i': 0}]]}
+                        n_doc = {'my_val': 2, sec[0]: secd, 'm_item': {'y': 3, 'ID': 8, 'zz': 1}, 'extra': 'x', 'ID': 9, 'Alt-Key': 5}
+                        wiz = style == 'inner' or r.random() < 0.3
+                        h = [cls(4, mf, False, 'b'), cls(1, nf, False, 'b'), cls(2, [['n_item', {'nested': 1}, None]], wiz, 'a'),
+                             cls(3, [['n_item', {'nested': 1}, None]], False, 'b')]
+                        if style == 'inner':
+                            h[2]['inner'] = meta
+                        else:
+                            h.append({'op': 'bind', 'cid': 2, 'meta': meta, 'tag': 'bind'})
+                        strict_doc = {'my_val': 2, sec[0]: secd, 'm_item': {'y': 2}}
+                        f_ops = [{'op': 'dump', 'attr': False, 'inst': {'c': 2, 'f': [['n_item', n_inst]]}, 'tag': 'dump'},
+                                 {'op': 'load', 'cid': 2, 'attr': False, 'doc': {'n_item': dict(n_doc, extra=None) if lopt.get('raise') is None else strict_doc}, 'tag': 'load'}]
+                        r.shuffle(f_ops)
+                        g_ops = [{'op': 'dump', 'attr': False, 'inst': {'c': 3, 'f': [['n_item', n_inst]]}, 'tag': 'dump'},
+                                 {'op': 'load', 'cid': 3, 'attr': False, 'doc': {'n_item': n_doc}, 'tag': 'load'},
+                                 {'op': 'dump', 'attr': False, 'inst': n_inst, 'tag': 'dump'},
+                                 {'op': 'load', 'cid': 1, 'attr': False, 'doc': n_doc, 'tag': 'load'},
+                                 {'op': 'dump', 'attr': False, 'inst': m_inst, 'tag': 'dump'},
+                                 {'op': 'load', 'cid': 4, 'attr': False, 'doc': {'y': 3, 'ID': 8, 'zz': 1}, 'tag': 'load'}]
+                        r.shuffle(g_ops)
+                        out.append((h + f_ops + g_ops, {1, 3, 4}))
     return out
 
 
@@ -310,6 +323,9 @@ def run(ctx):
         rels.append('witness')
     pairs.append((wit['F10-nested-alone-after'], {1}))
     rels.append('witness')
+    lat0 = lattice_pairs(r, ext=False)        # within the Coq model: the model says exactly what leaks today
+    pairs.extend(lat0)
+    rels.extend(['lattice'] * len(lat0))
     infos = check_pairs(ctx, pairs, 'c07')
     for (h, G), rel, info in zip(pairs, rels, infos):
         f_used_first = any(base.op_class(o) not in G and o['op'] in ('load', 'dump', 'bind') for o in h)
